@@ -110,3 +110,13 @@ Example C10_float_model_example :
   same_listE (ema_grouped_float 0.5 2 [(0%Z, 1, true); (1%Z, 4, true); (0%Z, 3, true); ((-1)%Z, 9, true); (0%Z, nan, true); (1%Z, 8, false)]%float)
              [1; 4; 0x1.2aaaaaaaaaaabp+1; nan; 0x1.2aaaaaaaaaaabp+1; 4]%float = true.
 Proof. vm_compute. reflexivity. Qed.
+
+(* Groups are independent in IEEE arithmetic too: for every float64 input (NaN, infinities, any magnitude), every mask and every
+   interleaving, the outputs the bit-exact model of the grouped EMA kernel writes at the rows of group g are - bit for bit - the
+   outputs of the same kernel on the rows of group g alone. *)
+From GL Require Proofs.EmaFloatProofs.
+Theorem C10_float_groups_are_independent alpha ng g rows : (0 <= g)%Z -> (Z.to_nat g < ng)%nat ->
+  EmaFloatProofs.outs_of g rows (EmaFloat.ema_grouped_float alpha ng rows)
+  = EmaFloat.ema_grouped_float alpha ng (filter (EmaFloatProofs.of_group g) rows).
+Proof. exact (EmaFloatProofs.ema_grouped_groups_are_independent alpha ng g rows). Qed.
+Print Assumptions C10_float_groups_are_independent.
